@@ -9,13 +9,16 @@ def _env():
     e = dict(os.environ)
     e['POULPY_VERIF_KX'] = os.path.join(VERIF, 'kx')
     e['CARGO_NET_OFFLINE'] = 'true'
+    # content-based freshness: an artifact is reused only if the SOURCE BYTES it was built from are the current ones (mtime-based freshness reuses an artifact built
+    # from another tree of the same workspace layout -- a scratch worktree -- when the files of the current tree are older than it)
+    e['CARGO_UNSTABLE_CHECKSUM_FRESHNESS'] = 'true'
     e.pop('RUSTFLAGS', None)
     return e
 
 def kani_cmd(crate, harnesses, jobs, harness_timeout, extra=None):
     cmd = ['cargo', 'kani', '-p', crate, '-Z', 'stubbing', '-Z', 'function-contracts', '-Z', 'unstable-options',
            '--exact', '-j', str(jobs), '--output-format', 'terse', '--harness-timeout', f'{int(harness_timeout)}s',
-           '--target-dir', os.path.join(CACHE, 'kani', crate)]
+           '--target-dir', os.path.join(CACHE, 'kani' if os.path.realpath(REPO) == '/repo' else 'kani_scratch', crate)]
     for h in harnesses:
         cmd += ['--harness', h]
     if extra:
